@@ -56,13 +56,13 @@ Definition conv (o : UserView.uop) : option op := conv_body o.2.
 (** Side conditions of the common fragment, beyond [conv] being defined:
     - the group objects the call goes through exist (otherwise no request reaches the file);
     - the IH5 deletion-marker value is not written as data ([Overlay.t_step] refuses it,
-      the association-list model does not know it);
-    - a copy does not go strictly below the source (the association-list model refuses
-      it, the overlay model's tree grafts the snapshot, as plain HDF5 does). *)
+      the association-list model does not know it).
+    A copy strictly below its own source ([copy a a/b/c]) IS part of the fragment: both models
+    graft a snapshot of the source taken before the intermediate groups are created, as plain
+    HDF5 does. *)
 Definition body_side (b : UserView.ubody) : bool :=
   match b with
   | UserView.UCreateDataset _ v | UserView.UAttrSet _ _ v => negb (is_del_value v)
-  | UserView.UCopy s d => negb (UserView.is_below s d)
   | _ => true
   end.
 
